@@ -156,6 +156,18 @@ def install(w):
 
 
 def _install_refs(w):
+    w.dict_comprehension = dict_comprehension
+    prev_construct = w.construct_ext
+
+    def construct_ext(it, cls, args, kwargs, node):
+        import dataclasses
+        if dataclasses.is_dataclass(cls) and cls.__module__.startswith("graphql"):
+            # a (frozen) dataclass instance: a new symbolic object; its fields are not tracked
+            w.trusted_used.add(f"constructor of dataclass {cls.__name__}: total, returns a new object "
+                               "(keyword validity is not checked here)")
+            return VRef(z3.Const(it.namer.fresh(cls.__name__.lower()), RefS), cls)
+        return prev_construct(it, cls, args, kwargs, node)
+    w.construct_ext = construct_ext
     prev_fresh = getattr(w, "fresh_ext", None)
 
     def fresh_ext(it, spec, label):
@@ -290,6 +302,20 @@ def _install_refs(w):
         return prev_len(it, v, node)
     w.len_ext = len_ext
 
+    prev_list = w.list_ext
+
+    def list_ext(it, v, node):
+        if isinstance(v, VOMap):
+            from .interp import ListObj
+            j = z3.Int(it.namer.fresh("j"))
+            oid = it.fresh_oid()
+            it.st.lists[oid] = ListObj(OMAP_LEN(v.t), None, "str",
+                                       [z3.Lambda([j], OMAP_KARR(v.t, j)),
+                                        z3.Lambda([j], OMAP_KLEN(v.t, j))])
+            return VList(oid)
+        return prev_list(it, v, node)
+    w.list_ext = list_ext
+
     prev_truth = getattr(w, "truth_ext", None)
 
     def truth_ext(it, v):
@@ -323,7 +349,19 @@ def _install_refs(w):
                 return z3.BoolVal(True)
             if issubclass(k, v.cls):
                 # a declared base class: the dynamic class is some subclass (consistent per object)
-                return z3.Function("ref_isinst", RefS, sym.I, sym.B)(v.t, sym.ATOMS.code(k))
+                RI = z3.Function("ref_isinst", RefS, sym.I, sym.B)
+                seen = it.st.ghost.setdefault(("isinst", v.t.get_id()), [])
+                for k2 in seen:
+                    if k2 is not k and not issubclass(k, k2) and not issubclass(k2, k):
+                        it.sadd(z3.Not(z3.And(RI(v.t, sym.ATOMS.code(k)), RI(v.t, sym.ATOMS.code(k2)))))
+                    elif k2 is not k and issubclass(k, k2):
+                        it.sadd(z3.Implies(RI(v.t, sym.ATOMS.code(k)), RI(v.t, sym.ATOMS.code(k2))))
+                    elif k2 is not k and issubclass(k2, k):
+                        it.sadd(z3.Implies(RI(v.t, sym.ATOMS.code(k2)), RI(v.t, sym.ATOMS.code(k))))
+                if k not in seen:
+                    seen.append(k)
+                it._keep_refs = getattr(it, "_keep_refs", []) + [v.t]
+                return RI(v.t, sym.ATOMS.code(k))
             return z3.BoolVal(False)
         if isinstance(v, VOMap):
             return z3.BoolVal(issubclass(dict, k))
@@ -426,6 +464,48 @@ def install_refsets(w):
         return atom(None)
     w.builtins["refset.add"] = rs_add
     w.spec_funcs["rs_has"] = lambda it, s, x: VBool(refset_has(it, s, x))
+
+
+# ---------------------------------------------------------------------- dict comprehensions
+def dict_comprehension(it, node):
+    """{k(x): v(x) for x in S}: over a concrete S expanded into a literal-key dict when the keys are
+    literals; over a symbolic S an ordered map with  len <= len(S)  and  (len(S) >= 1 => len >= 1)
+    whose values have the kind of v(x) (one generic element is executed for its obligations)."""
+    from .interp import _PathEnd, _src
+    if len(node.generators) != 1 or node.generators[0].ifs:
+        raise Unsupported("dict comprehension with filters or nested loops")
+    gen = node.generators[0]
+    src = it.ev(gen.iter)
+    seq = it.world.as_sequence(it, src, gen.iter)
+    saved = dict(it.st.env)
+    try:
+        if seq.concrete is not None:
+            raise Unsupported("dict comprehension over a concrete sequence")
+        n = seq.length
+        m = z3.Const(it.namer.fresh("dcomp"), RefS)
+        it.sadd(z3.And(OMAP_LEN(m) >= 0, OMAP_LEN(m) <= n, z3.Implies(n >= 1, OMAP_LEN(m) >= 1)))
+        valspec = "dyn"
+        if it.choose(2, "dict comprehension source empty?") == 0:
+            i0 = z3.Int(it.namer.fresh("_c"))
+            it.assume(z3.And(0 <= i0, i0 < n))
+            if not it.feasible():
+                raise _PathEnd()
+            it.assign(gen.target, seq.item(i0), node)
+            k = it.ev(node.key)
+            v = it.ev(node.value)
+            if isinstance(v, VRef):
+                valspec = "ref:" + v.cls.__module__ + "." + v.cls.__qualname__
+                it.world.class_aliases.setdefault(valspec[4:], v.cls)
+        else:
+            it.assume(n == 0)
+            if not it.feasible():
+                raise _PathEnd()
+        return VOMap(m, valspec)
+    finally:
+        for k2 in list(it.st.env):
+            if k2 not in saved:
+                del it.st.env[k2]
+        it.st.env.update(saved)
 
 
 # ---------------------------------------------------------------------- recording output dicts
